@@ -34,8 +34,9 @@ META = {
         "(quick) / 1..12 (thorough), ordered edge lists over 0..n-1 with 0..2n+2 drawn pairs plus up to 3 planted "
         "repeats / reversals / self loops, shuffled; weights from {0,1,2,3,5,0.5,2.5} (ints and dyadic floats, so every "
         "sum is exact), negative weights either drawn freely (negative cycles likely) or as w+p[u]-p[v] from node "
-        "potentials (negative edges, no negative cycle); floyd_warshall directed and undirected; source and target "
-        "none / equal to source / arbitrary node (reachable or not); kruskal with and without allow_forest on sparse, "
+        "potentials (negative edges, no negative cycle); half of the shortest-path/traversal graphs are an out-tree over a drawn "
+        "permutation plus extras (multi-hop answers by construction); floyd_warshall directed and undirected; source and target "
+        "none / equal to source / a reachable node (deepest first) / an unreachable node / any node; kruskal with and without allow_forest on sparse, "
         "tree+extra (connected) and few-distinct-weights graphs; topological sort on DAGs (edges oriented along a drawn "
         "permutation, duplicates kept), DAG plus one arbitrary edge, and arbitrary digraphs; SCC on arbitrary and "
         "planted-cycle digraphs; PageRank damping in {0.25,0.5,0.85,0.9}, tol in {1e-3,1e-6,1e-8,1e-10}, max_iter in "
@@ -261,15 +262,37 @@ def _shuffled(draw, items):
     return [list(x) for x in draw(st.permutations(items))] if 1 < len(items) <= 40 else items
 
 
+def _draw_graph(draw, n, wstrat=None):
+    """(family, edges, root).  uniform: drawn pairs.  backbone: an out-tree over a drawn permutation (every node hangs
+    under its predecessor in the permutation or under an earlier one, so multi-hop routes from the root exist by
+    construction) plus drawn extra pairs, shuffled; root = first node of the permutation."""
+    family = draw(st.sampled_from(["uniform", "backbone"]))
+    if family == "uniform" or n < 3:
+        return "uniform", _draw_pairs(draw, n, wstrat=wstrat), None
+    perm = draw(st.permutations(range(n)))
+    edges = []
+    for i in range(1, n):
+        j = i - 1 - (draw(st.integers(0, i - 1)) if draw(st.booleans()) else 0)
+        edges.append([perm[j], perm[i]] + ([draw(wstrat)] if wstrat is not None else []))
+    edges += _draw_pairs(draw, n, mmax=n + 2, wstrat=wstrat)
+    return family, _shuffled(draw, edges), perm[0]
+
+
 def _draw_weighted(draw, n, mode):
-    edges = _draw_pairs(draw, n, wstrat=st.sampled_from(W_POS + W_POS + W_NEG if mode == "free" else W_POS))
+    family, edges, root = _draw_graph(draw, n, st.sampled_from(W_POS + W_POS + W_NEG if mode == "free" else W_POS))
     if mode == "fewneg" and edges:
         for i in draw(st.lists(st.integers(0, len(edges) - 1), min_size=1, max_size=2)):
             edges[i][2] = draw(st.sampled_from(W_NEG))
     if mode == "potential":
         pot = draw(st.lists(st.integers(0, 3), min_size=n, max_size=n))
         edges = [[u, v, w + pot[u] - pot[v]] for u, v, w in edges]  # ints stay ints, halves stay exact floats
-    return edges
+    return family, edges, root
+
+
+def _draw_source(draw, n, root):
+    if root is not None and draw(st.integers(0, 3)):
+        return root
+    return draw(st.integers(0, n - 1))
 
 
 def _draw_n(draw, tier):
@@ -288,13 +311,14 @@ def _draw_target(draw, n, source, edges):
         adj = {}
         for e in edges:
             adj.setdefault(e[0], []).append(e[1])
-        seen, todo = {source}, [source]
-        while todo:
-            for v in adj.get(todo.pop(), []):
+        seen, order = {source}, [source]
+        for u in order:  # breadth first, so `order` lists the reachable nodes by increasing hop count
+            for v in adj.get(u, []):
                 if v not in seen:
                     seen.add(v)
-                    todo.append(v)
-        pool = sorted(seen - {source}) if tmode == "reachable" else [v for v in range(n) if v not in seen]
+                    order.append(v)
+        # reachable: deepest first (small draws = many hops, which is where path validation matters)
+        pool = order[:0:-1] if tmode == "reachable" else [v for v in range(n) if v not in seen]
         if pool:
             return pool[draw(st.integers(0, len(pool) - 1))]
     return draw(st.integers(0, n - 1))
@@ -305,32 +329,33 @@ def fw_cases(draw, tier):
     n = _draw_n(draw, tier)
     directed = draw(st.booleans())
     mode = draw(st.sampled_from(["nonneg", "nonneg", "potential", "potential", "fewneg", "free"] if directed else ["nonneg", "nonneg", "nonneg", "fewneg"]))
-    return {"n": n, "directed": directed, "mode": mode, "edges": _draw_weighted(draw, n, mode)}
+    family, edges, _ = _draw_weighted(draw, n, mode)
+    return {"n": n, "directed": directed, "mode": mode, "family": family, "edges": edges}
 
 
 @st.composite
 def bf_cases(draw, tier):
     n = _draw_n(draw, tier)
     mode = draw(st.sampled_from(["nonneg", "potential", "potential", "fewneg", "free"]))
-    edges = _draw_weighted(draw, n, mode)
-    s = draw(st.integers(0, n - 1))
-    return {"n": n, "mode": mode, "edges": edges, "source": s, "target": _draw_target(draw, n, s, edges)}
+    family, edges, root = _draw_weighted(draw, n, mode)
+    s = _draw_source(draw, n, root)
+    return {"n": n, "mode": mode, "family": family, "edges": edges, "source": s, "target": _draw_target(draw, n, s, edges)}
 
 
 @st.composite
 def dj_cases(draw, tier):
     n = _draw_n(draw, tier)
-    edges = _draw_weighted(draw, n, "nonneg")
-    s = draw(st.integers(0, n - 1))
-    return {"n": n, "edges": edges, "source": s, "target": _draw_target(draw, n, s, edges)}
+    family, edges, root = _draw_weighted(draw, n, "nonneg")
+    s = _draw_source(draw, n, root)
+    return {"n": n, "family": family, "edges": edges, "source": s, "target": _draw_target(draw, n, s, edges)}
 
 
 @st.composite
 def trav_cases(draw, tier):
     n = _draw_n(draw, tier)
-    edges = _draw_pairs(draw, n)
-    s = draw(st.integers(0, n - 1))
-    return {"n": n, "edges": edges, "source": s, "target": _draw_target(draw, n, s, edges)}
+    family, edges, root = _draw_graph(draw, n)
+    s = _draw_source(draw, n, root)
+    return {"n": n, "family": family, "edges": edges, "source": s, "target": _draw_target(draw, n, s, edges)}
 
 
 @st.composite
@@ -419,7 +444,7 @@ def run_fw(desc, ctx):
     res = _call4(ctx, fname, lambda: (n, list(edges)), {"directed": directed})
     A = G.apsp(n, edges, directed)
     dupanti = _pair_facts(ctx, n, [(u, v) for u, v, _ in edges], [w for *_, w in edges])
-    ctx.label("directed" if directed else "undirected", f"mode-{desc['mode']}", "negative-cycle" if A is None else "no-negative-cycle")
+    ctx.label("directed" if directed else "undirected", f"mode-{desc['mode']}", f"family-{desc.get('family', 'uniform')}", "negative-cycle" if A is None else "no-negative-cycle")
     ctx.nontrivial(dupanti or A is None)
     meanings = {}
     for b, r in res.items():
@@ -450,9 +475,10 @@ def _single_source(fname, desc, ctx, res, d, weighted):
     meanings = {}
     for b, r in res.items():
         stt = _status(r)
-        if d is None:
-            if stt == "UNBOUNDED":
-                _expect_none(fname, b, res, r, -INF, "unbounded-result-shape")
+        if stt == "UNBOUNDED":  # whatever the reference says: the comparison of the meanings names the disagreement
+            _expect_none(fname, b, res, r, -INF, "unbounded-result-shape")
+            meanings[b] = (stt, None)
+        elif d is None:
             meanings[b] = (stt, None)
         elif t is None:
             sol = r.solution
@@ -486,6 +512,7 @@ def _single_source(fname, desc, ctx, res, d, weighted):
 
 def _target_labels(ctx, desc, d):
     t = desc["target"]
+    ctx.label(f"family-{desc.get('family', 'uniform')}")
     unreachable = t is not None and d is not None and d[t] is None
     ctx.label("target-none" if t is None else "target=source" if t == desc["source"] else "target-unreachable" if unreachable else "target-reachable")
     return unreachable
@@ -759,13 +786,13 @@ def run_topo(desc, ctx):
 
 
 SUBS = [
-    Sub("floyd_warshall", run_fw, strategy=fw_cases, quick=1500, thorough=4000),
-    Sub("bellman_ford", run_bf, strategy=bf_cases, quick=1500, thorough=4000),
-    Sub("dijkstra_edges", run_dj, strategy=dj_cases, quick=1500, thorough=4000),
-    Sub("bfs_edges", run_bfs, strategy=trav_cases, quick=1500, thorough=4000),
-    Sub("dfs_edges", run_dfs, strategy=trav_cases, quick=1500, thorough=4000),
-    Sub("kruskal", run_mst, strategy=mst_cases, quick=1500, thorough=4000),
-    Sub("pagerank_edges", run_pr, strategy=pr_cases, quick=1500, thorough=4000),
-    Sub("strongly_connected_components_edges", run_scc, strategy=scc_cases, quick=1500, thorough=4000),
-    Sub("topological_sort_edges", run_topo, strategy=topo_cases, quick=1500, thorough=4000),
+    Sub("floyd_warshall", run_fw, strategy=fw_cases, quick=1500, thorough=2500),
+    Sub("bellman_ford", run_bf, strategy=bf_cases, quick=1500, thorough=2500),
+    Sub("dijkstra_edges", run_dj, strategy=dj_cases, quick=1500, thorough=2500),
+    Sub("bfs_edges", run_bfs, strategy=trav_cases, quick=1500, thorough=2500),
+    Sub("dfs_edges", run_dfs, strategy=trav_cases, quick=1500, thorough=2500),
+    Sub("kruskal", run_mst, strategy=mst_cases, quick=1500, thorough=2500),
+    Sub("pagerank_edges", run_pr, strategy=pr_cases, quick=1500, thorough=2500),
+    Sub("strongly_connected_components_edges", run_scc, strategy=scc_cases, quick=1500, thorough=2500),
+    Sub("topological_sort_edges", run_topo, strategy=topo_cases, quick=1500, thorough=2500),
 ]
